@@ -13,7 +13,7 @@ ID = "C11"
 LEVEL = "exploration"
 BUDGET = {
     "quick": {"runs": 1600, "wall": 420, "chunk": 8, "per_run_cap": 240},
-    "thorough": {"runs": 16000, "wall": 3300, "chunk": 40, "per_run_cap": 240},
+    "thorough": {"runs": 80000, "wall": 3400, "chunk": 40, "per_run_cap": 240},
 }
 WEIGHTED = ["UPGrad", "DualProj", "MGDA", "PCGrad", "CAGrad", "IMTLG", "AlignedMTL", "Krum", "Mean", "Sum", "Constant", "Random"]
 MUST_REJECT = WEIGHTED + ["GradDrop", "TrimmedMean"]
